@@ -130,6 +130,29 @@ pub fn classify_panic(p: &(dyn std::any::Any + Send)) -> (String, String) {
     }
 }
 
+/// Registration style (spec: `with_x` and `add_x` are the SAME action): a third of the well-formed
+/// registrations goes through the consuming, chainable form of the call. The choice is a function
+/// of the position only, so the random stream of everything else is what it was. An ill-formed
+/// call keeps the `add_x` form (a panicking `with_x` would take the builder with it).
+fn chained(tick: usize) -> bool {
+    (tick.wrapping_mul(2654435761) >> 9) % 3 == 0
+}
+
+fn well_formed(b: &DispatcherBuilder<'static, 'static>, name: &str, deps: &[String]) -> bool {
+    (name.is_empty() || !b.contains(name)) && deps.iter().all(|d| b.contains(d))
+}
+
+macro_rules! reg {
+    ($b:ident, $chain:expr, $add:ident, $with:ident ( $($a:expr),* )) => {
+        if $chain {
+            let taken = std::mem::take(&mut $b);
+            $b = taken.$with($($a),*);
+        } else {
+            $b.$add($($a),*);
+        }
+    };
+}
+
 impl Recorder {
     pub fn new(variant: Variant, print_every: bool) -> Self {
         let ctx = Ctx::new(resmap_of(&variant));
@@ -378,7 +401,8 @@ impl Recorder {
             }
             match op {
                 Op::Barrier => {
-                    b.add_barrier();
+                    let chain = chained(self.events.len());
+                    reg!(b, chain, add_barrier, with_barrier());
                     self.events.push(json!({"ev":"barrier","b":bidx}));
                     if self.variant.extra_barriers && self.rng.gen_bool(0.3) {
                         b.add_barrier();
@@ -402,7 +426,8 @@ impl Recorder {
                             tl: true,
                             mk: PhantomData,
                         };
-                        catch_unwind(AssertUnwindSafe(|| b.add_thread_local(sys)))
+                        let chain = chained(gid);
+                        catch_unwind(AssertUnwindSafe(|| reg!(b, chain, add_thread_local, with_thread_local(sys))))
                     };
                     let after = norm(bidx, b.verif_layout());
                     let new = self.snapshot_new_addr(&before, &after);
@@ -495,9 +520,10 @@ impl Recorder {
                                 b.add(sys, &rname, &d)
                             }))
                         } else {
+                            let chain = chained(gid) && well_formed(&b, &rname, &rdeps);
                             catch_unwind(AssertUnwindSafe(|| {
                                 let d: Vec<&str> = rdeps.iter().map(|s| s.as_str()).collect();
-                                b.add(sys, &rname, &d)
+                                reg!(b, chain, add, with(sys, &rname, &d))
                             }))
                         }
                     };
@@ -515,9 +541,10 @@ impl Recorder {
                     let rdeps: Vec<String> = self.variant_deps(deps, bidx);
                     let before = norm(bidx, b.verif_layout());
                     let ctx = self.ctx.clone();
+                    let chain = chained(gid) && well_formed(&b, &rname, &rdeps);
                     let out = crate::with_hstat!(*kind, gid, *t, ctx, |sys| catch_unwind(AssertUnwindSafe(|| {
                         let d: Vec<&str> = rdeps.iter().map(|s| s.as_str()).collect();
-                        b.add(sys, &rname, &d)
+                        reg!(b, chain, add, with(sys, &rname, &d))
                     })));
                     let after = norm(bidx, b.verif_layout());
                     self.log_add("add", bidx, gid, &r, &w, &rname, &rdeps, *t, out, &before, &after, json!({"static": kind}));
@@ -540,19 +567,20 @@ impl Recorder {
                     let rdeps: Vec<String> = self.variant_deps(deps, bidx);
                     let before = norm(bidx, b.verif_layout());
                     let ctx = self.ctx.clone();
+                    let chain = chained(gid) && well_formed(&b, &rname, &rdeps);
                     let out = catch_unwind(AssertUnwindSafe(|| {
                         let d: Vec<&str> = rdeps.iter().map(|s| s.as_str()).collect();
                         macro_rules! go {
                             ($k:ident) => {
                                 if *multi {
-                                    b.add_batch(
+                                    reg!(b, chain, add_batch, with_batch(
                                         MultiDispatcher::new(HMulti::<$k> { gid, n: *n, ctx, k: PhantomData }),
                                         ib,
                                         &rname,
-                                        &d,
-                                    )
+                                        &d
+                                    ))
                                 } else {
-                                    b.add_batch(HCtl::<$k> { gid, inner_b: iidx, n: *n, t: *t, ctx, k: PhantomData }, ib, &rname, &d)
+                                    reg!(b, chain, add_batch, with_batch(HCtl::<$k> { gid, inner_b: iidx, n: *n, t: *t, ctx, k: PhantomData }, ib, &rname, &d))
                                 }
                             };
                         }
